@@ -3,10 +3,12 @@ package proxy
 import (
 	"errors"
 	"fmt"
+	"io"
 	"log/slog"
 	"net/http"
 	"net/url"
 	"strings"
+	"sync/atomic"
 )
 
 var (
@@ -21,6 +23,30 @@ var upstreamClient = &http.Client{
 	CheckRedirect: func(req *http.Request, via []*http.Request) error {
 		return http.ErrUseLastResponse
 	},
+}
+
+// consumedBody remembers that the client's request body has been read to its end.
+//
+// The upstream transport reads the body once more after the last byte (to check it against the
+// announced length) and closes it, possibly after the upstream has already answered. By then the
+// HTTP server may have closed the consumed body because the response is being written, and the
+// late read fails with http.ErrBodyReadAfterClose. The transport takes that for a broken request
+// and drops the upstream connection in the middle of the response that is being relayed. Once the
+// end has been seen, further reads report EOF without touching the closed body.
+type consumedBody struct {
+	io.ReadCloser
+	done atomic.Bool
+}
+
+func (b *consumedBody) Read(p []byte) (int, error) {
+	if b.done.Load() {
+		return 0, io.EOF
+	}
+	n, err := b.ReadCloser.Read(p)
+	if err == io.EOF {
+		b.done.Store(true)
+	}
+	return n, err
 }
 
 func removeHopByHopHeaders(header http.Header) {
@@ -86,6 +112,12 @@ func sendRequestToTarget(req *http.Request, httpsDefault bool) (*http.Response, 
 	changeRequestToTarget(req, httpsDefault)
 	// Remove hop-by-hop headers in the request that should not be forwarded to the target server.
 	removeHopByHopHeaders(req.Header)
+
+	if req.Body != nil && req.Body != http.NoBody {
+		if _, wrapped := req.Body.(*consumedBody); !wrapped {
+			req.Body = &consumedBody{ReadCloser: req.Body}
+		}
+	}
 
 	slog.Debug("Sending request", "url", req.URL, "method", req.Method)
 	resp, err := upstreamClient.Do(req)
